@@ -501,7 +501,29 @@ func c09Exec(t *testing.T, sc *gen.Scenario, trace bool) *harness.Outcome {
 				continue
 			}
 			if a.s != want.s {
-				e.Violate("cache_changes_answer", fmt.Sprintf("mode=%d kind=%s%s", mode, rq2.Kind, e.engineTags(stateFor(sc, rq2), rq2)), "request %d (%+v): %s with the iterator caches on, %s with caching disabled (cache stats %v)", i, rq2, a.s, want.s, cache.Stats())
+				tag := e.engineTags(stateFor(sc, rq2), rq2)
+				if rq2.Kind == "listobjects" {
+					// F1 through ListObjects' residual Check: every object the two answers disagree on sits
+					// behind an exclusion whose subtrahend reaches a tuple cycle
+					st2, in, n := stateFor(sc, rq2), map[string]int{}, 0
+					for _, o := range strings.Fields(a.s) {
+						in[o]++
+					}
+					for _, o := range strings.Fields(want.s) {
+						in[o]--
+					}
+					all := true
+					for o, d := range in {
+						if d != 0 {
+							n++
+							all = all && strings.Contains(o, ":") && st2.DiffSubtrahendReachesCycle(o, rq2.Rel)
+						}
+					}
+					if n > 0 && all {
+						tag = " diff_subtrahend_reaches_tuple_cycle"
+					}
+				}
+				e.Violate("cache_changes_answer", fmt.Sprintf("mode=%d kind=%s%s", mode, rq2.Kind, tag), "request %d (%+v): %s with the iterator caches on, %s with caching disabled (cache stats %v)", i, rq2, a.s, want.s, cache.Stats())
 				return
 			}
 			if ttl < time.Second && i%4 == 1 {
